@@ -1,5 +1,7 @@
 import GarbleVerif.Proofs.BitCore
 import GarbleVerif.Proofs.BitShape
+import GarbleVerif.Proofs.BitAgg
+import GarbleVerif.Proofs.MatchComplete
 /-!
 # Scalar patterns: the compiled match bit against `Src.matchPat`
 -/
@@ -67,6 +69,264 @@ theorem patBits_sound (p : Pat) (ts : STy) (v : Val) (sb : List Bool) (m : Bool)
       by_cases h1 : lo ≤ a <;> by_cases h2 : a ≤ hi <;> simp [h1, h2] <;> omega
     · simp at h
   · simp at h
+
+/-! ### patterns on aggregates -/
+
+/-- what a compiled pattern says about the source-level match: the bit is set exactly when the pattern matches,
+and then the variables it binds carry the values `matchPat` binds -/
+def PatOK (m : Bool) (bb : BEnv) (r : Option Src.Env) : Prop :=
+  (m = true → ∃ binds, r = some binds ∧ EnvRel binds bb) ∧ (m = false → r = none)
+
+theorem patOK_scalar {p : Pat} {ts : STy} {v : Val} {bs : List Bool} {m : Bool} {bind : Option String}
+    (hrel : Rel ts v bs) (h : patBits p ts bs = some (m, bind)) (hb : bind = none) : PatOK m [] (matchPat p v) := by
+  have := patBits_sound p ts v bs m bind hrel h
+  subst hb
+  rw [this]
+  cases m
+  · exact ⟨by simp, fun _ => rfl⟩
+  · exact ⟨fun _ => ⟨[], by simp [bindsOf], EnvRel.nil⟩, by simp⟩
+
+theorem patBits_bind_none {p : Pat} {ts : STy} {bs : List Bool} {m : Bool} {bind : Option String}
+    (h : patBits p ts bs = some (m, bind)) (hp : ∀ x, p ≠ .ident x) : bind = none := by
+  unfold patBits at h
+  split at h
+  · exact absurd rfl (hp _)
+  all_goals first
+    | (simp only [Option.some.injEq, Prod.mk.injEq] at h; exact h.2.symm)
+    | (split at h
+       · simp only [Option.some.injEq, Prod.mk.injEq] at h; exact h.2.symm
+       · simp at h)
+    | simp at h
+
+mutual
+theorem patG_sound : ∀ (p : Pat) (t : Ty) (v : Val) (m : Bool) (bb : BEnv), v.hasType t = true →
+    patG p t (v.encode t) = some (m, bb) → PatOK m bb (matchPat p v)
+  | .ident x, t, v, m, bb, hv, h => by
+    simp only [patG, Option.some.injEq, Prod.mk.injEq] at h
+    obtain ⟨rfl, rfl⟩ := h
+    exact ⟨fun _ => ⟨[(x, v)], by simp [matchPat], EnvRel.cons (VRel.of_hasType hv) EnvRel.nil⟩, by simp⟩
+  | .tuple ps, .tuple ts, v, m, bb, hv, h => by
+    cases v with
+    | tuple vs =>
+      simp only [patG, Val.encode] at h
+      simp only [Val.hasType] at hv
+      simpa [matchPat] using patsG_sound ps ts vs m bb hv h
+    | _ => simp [Val.hasType] at hv
+  | .bool b, .bool, v, m, bb, hv, h => by
+    simp only [patG] at h
+    split at h
+    · rename_i m' bind hpb
+      simp only [Option.some.injEq, Prod.mk.injEq] at h
+      obtain ⟨rfl, rfl⟩ := h
+      exact patOK_scalar (ts := .bool) (Rel.of_hasType (t := .bool) hv) hpb (patBits_bind_none hpb (by intro x; simp))
+    · simp at h
+  | .int n, .int k, v, m, bb, hv, h => by
+    simp only [patG] at h
+    split at h
+    · rename_i m' bind hpb
+      simp only [Option.some.injEq, Prod.mk.injEq] at h
+      obtain ⟨rfl, rfl⟩ := h
+      exact patOK_scalar (ts := .int k) (Rel.of_hasType (t := .int k) hv) hpb (patBits_bind_none hpb (by intro x; simp))
+    · simp at h
+  | .range lo hi, .int k, v, m, bb, hv, h => by
+    simp only [patG] at h
+    split at h
+    · rename_i m' bind hpb
+      simp only [Option.some.injEq, Prod.mk.injEq] at h
+      obtain ⟨rfl, rfl⟩ := h
+      exact patOK_scalar (ts := .int k) (Rel.of_hasType (t := .int k) hv) hpb (patBits_bind_none hpb (by intro x; simp))
+    · simp at h
+  | .tuple _, .bool, _, _, _, _, h => by simp [patG] at h
+  | .tuple _, .int _, _, _, _, _, h => by simp [patG] at h
+  | .tuple _, .array _ _, _, _, _, _, h => by simp [patG] at h
+  | .tuple _, .struct _ _, _, _, _, _, h => by simp [patG] at h
+  | .tuple _, .enum _ _, _, _, _, _, h => by simp [patG] at h
+  | .bool _, .int _, _, _, _, _, h => by simp [patG] at h
+  | .bool _, .array _ _, _, _, _, _, h => by simp [patG] at h
+  | .bool _, .tuple _, _, _, _, _, h => by simp [patG] at h
+  | .bool _, .struct _ _, _, _, _, _, h => by simp [patG] at h
+  | .bool _, .enum _ _, _, _, _, _, h => by simp [patG] at h
+  | .int _, .bool, _, _, _, _, h => by simp [patG] at h
+  | .int _, .array _ _, _, _, _, _, h => by simp [patG] at h
+  | .int _, .tuple _, _, _, _, _, h => by simp [patG] at h
+  | .int _, .struct _ _, _, _, _, _, h => by simp [patG] at h
+  | .int _, .enum _ _, _, _, _, _, h => by simp [patG] at h
+  | .range _ _, .bool, _, _, _, _, h => by simp [patG] at h
+  | .range _ _, .array _ _, _, _, _, _, h => by simp [patG] at h
+  | .range _ _, .tuple _, _, _, _, _, h => by simp [patG] at h
+  | .range _ _, .struct _ _, _, _, _, _, h => by simp [patG] at h
+  | .range _ _, .enum _ _, _, _, _, _, h => by simp [patG] at h
+  | .struct sn fps, .struct sn' fs, v, m, bb, hv, h => by
+    cases v with
+    | struct sn2 fvs =>
+      simp only [patG, Val.encode] at h
+      simp only [Val.hasType, Bool.and_eq_true] at hv
+      simpa [matchPat] using fieldsG_sound fps fs fvs m bb hv.2 h
+    | _ => simp [Val.hasType] at hv
+  | .struct _ _, .bool, _, _, _, _, h => by simp [patG] at h
+  | .struct _ _, .int _, _, _, _, _, h => by simp [patG] at h
+  | .struct _ _, .array _ _, _, _, _, _, h => by simp [patG] at h
+  | .struct _ _, .tuple _, _, _, _, _, h => by simp [patG] at h
+  | .struct _ _, .enum _ _, _, _, _, _, h => by simp [patG] at h
+  | .enumUnit _ _, _, _, _, _, _, h => by simp [patG] at h
+  | .enumTuple _ _ _, _, _, _, _, _, h => by simp [patG] at h
+theorem fieldsG_sound : ∀ (fps : FieldPats) (fs : Fields) (fvs : FieldVals) (m : Bool) (bb : BEnv), fvs.haveTypes fs = true →
+    fieldsG fps fs (fvs.encodeEach fs) = some (m, bb) → PatOK m bb (matchFields fps fvs)
+  | .nil, fs, fvs, m, bb, _, h => by
+    simp only [fieldsG, Option.some.injEq, Prod.mk.injEq] at h
+    obtain ⟨rfl, rfl⟩ := h
+    exact ⟨fun _ => ⟨[], by simp [matchFields], EnvRel.nil⟩, by simp⟩
+  | .cons n p r, fs, fvs, m, bb, hv, h => by
+    simp only [fieldsG] at h
+    split at h
+    · rename_i off ti hn
+      obtain ⟨vi, hg, ht, he⟩ := fields_nth fvs fs n off ti hv hn
+      rw [he] at h
+      split at h
+      · rename_i m1 b1 m2 b2 h1 h2
+        simp only [Option.some.injEq, Prod.mk.injEq] at h
+        obtain ⟨rfl, rfl⟩ := h
+        have i1 := patG_sound p ti vi m1 b1 ht h1
+        have i2 := fieldsG_sound r fs fvs m2 b2 hv h2
+        simp only [matchFields, hg]
+        cases m1 with
+        | false => rw [i1.2 rfl]; exact ⟨by simp, fun _ => by simp⟩
+        | true =>
+          obtain ⟨bd1, e1, r1⟩ := i1.1 rfl
+          rw [e1]
+          cases m2 with
+          | false => rw [i2.2 rfl]; exact ⟨by simp, fun _ => by simp⟩
+          | true =>
+            obtain ⟨bd2, e2, r2⟩ := i2.1 rfl
+            rw [e2]
+            exact ⟨fun _ => ⟨bd2 ++ bd1, rfl, r2.append r1⟩, by simp⟩
+      · simp at h
+    · simp at h
+theorem patsG_sound : ∀ (ps : PatList) (ts : TyList) (vs : ValList) (m : Bool) (bb : BEnv), vs.haveTypes ts = true →
+    patsG ps ts (vs.encodeEach ts) = some (m, bb) → PatOK m bb (matchPats ps vs)
+  | .nil, .nil, vs, m, bb, hv, h => by
+    cases vs with
+    | nil =>
+      simp only [patsG, Option.some.injEq, Prod.mk.injEq] at h
+      obtain ⟨rfl, rfl⟩ := h
+      exact ⟨fun _ => ⟨[], by simp [matchPats], EnvRel.nil⟩, by simp⟩
+    | cons _ _ => simp [ValList.haveTypes] at hv
+  | .nil, .cons _ _, _, _, _, _, h => by simp [patsG] at h
+  | .cons _ _, .nil, _, _, _, _, h => by simp [patsG] at h
+  | .cons p ps, .cons t ts, vs, m, bb, hv, h => by
+    cases vs with
+    | nil => simp [ValList.haveTypes] at hv
+    | cons v vs =>
+      simp only [ValList.haveTypes, Bool.and_eq_true] at hv
+      have hl := Val.encode_length v _ hv.1
+      simp only [patsG, ValList.encodeEach] at h
+      rw [List.take_append_of_le_length (by rw [hl]; exact Nat.le_refl _), List.take_of_length_le (by rw [hl]; exact Nat.le_refl _),
+        List.drop_append, List.drop_of_length_le (by rw [hl]; exact Nat.le_refl _), hl, Nat.sub_self, List.drop_zero,
+        List.nil_append] at h
+      split at h
+      · rename_i m1 b1 m2 b2 h1 h2
+        simp only [Option.some.injEq, Prod.mk.injEq] at h
+        obtain ⟨rfl, rfl⟩ := h
+        have i1 := patG_sound p t v m1 b1 hv.1 h1
+        have i2 := patsG_sound ps ts vs m2 b2 hv.2 h2
+        simp only [matchPats]
+        cases m1 with
+        | false => rw [i1.2 rfl]; exact ⟨by simp, fun _ => by simp⟩
+        | true =>
+          obtain ⟨bd1, e1, r1⟩ := i1.1 rfl
+          rw [e1]
+          cases m2 with
+          | false => rw [i2.2 rfl]; exact ⟨by simp, fun _ => by simp⟩
+          | true =>
+            obtain ⟨bd2, e2, r2⟩ := i2.1 rfl
+            rw [e2]
+            exact ⟨fun _ => ⟨bd2 ++ bd1, rfl, r2.append r1⟩, by simp⟩
+      · simp at h
+end
+
+mutual
+theorem total_bit : ∀ (p : Pat) (t : Ty) (bs : List Bool) (bb : BEnv), Pat.total p = true → patG p t bs = some (false, bb) → False
+  | .ident x, t, bs, bb, _, h => by simp [patG] at h
+  | .tuple ps, .tuple ts, bs, bb, ht, h => by
+    simp only [patG] at h
+    simp only [Pat.total] at ht
+    exact totals_bit ps ts bs bb ht h
+  | .tuple _, .bool, _, _, _, h => by simp [patG] at h
+  | .tuple _, .int _, _, _, _, h => by simp [patG] at h
+  | .tuple _, .array _ _, _, _, _, h => by simp [patG] at h
+  | .tuple _, .struct _ _, _, _, _, h => by simp [patG] at h
+  | .tuple _, .enum _ _, _, _, _, h => by simp [patG] at h
+  | .bool _, _, _, _, ht, _ => by simp [Pat.total] at ht
+  | .int _, _, _, _, ht, _ => by simp [Pat.total] at ht
+  | .range _ _, _, _, _, ht, _ => by simp [Pat.total] at ht
+  | .struct _ fps, .struct _ fs, bs, bb, ht, h => by
+    simp only [patG] at h
+    simp only [Pat.total] at ht
+    exact ftotals_bit fps fs bs bb ht h
+  | .struct _ _, .bool, _, _, _, h => by simp [patG] at h
+  | .struct _ _, .int _, _, _, _, h => by simp [patG] at h
+  | .struct _ _, .array _ _, _, _, _, h => by simp [patG] at h
+  | .struct _ _, .tuple _, _, _, _, h => by simp [patG] at h
+  | .struct _ _, .enum _ _, _, _, _, h => by simp [patG] at h
+  | .enumUnit _ _, _, _, _, ht, _ => by simp [Pat.total] at ht
+  | .enumTuple _ _ _, _, _, _, ht, _ => by simp [Pat.total] at ht
+theorem ftotals_bit : ∀ (fps : FieldPats) (fs : Fields) (bs : List Bool) (bb : BEnv), FieldPats.total fps = true →
+    fieldsG fps fs bs = some (false, bb) → False
+  | .nil, fs, bs, bb, _, h => by simp [fieldsG] at h
+  | .cons n p r, fs, bs, bb, ht, h => by
+    simp only [FieldPats.total, Bool.and_eq_true] at ht
+    simp only [fieldsG] at h
+    split at h
+    · split at h
+      · rename_i m1 b1 m2 b2 h1 h2
+        simp only [Option.some.injEq, Prod.mk.injEq, Bool.and_eq_false_iff] at h
+        rcases h.1 with hm | hm
+        · subst hm; exact total_bit p _ _ b1 ht.1 h1
+        · subst hm; exact ftotals_bit r fs _ b2 ht.2 h2
+      · simp at h
+    · simp at h
+theorem totals_bit : ∀ (ps : PatList) (ts : TyList) (bs : List Bool) (bb : BEnv), PatList.total ps = true →
+    patsG ps ts bs = some (false, bb) → False
+  | .nil, .nil, bs, bb, _, h => by simp [patsG] at h
+  | .nil, .cons _ _, _, _, _, h => by simp [patsG] at h
+  | .cons _ _, .nil, _, _, _, h => by simp [patsG] at h
+  | .cons p ps, .cons t ts, bs, bb, ht, h => by
+    simp only [PatList.total, Bool.and_eq_true] at ht
+    simp only [patsG] at h
+    split at h
+    · rename_i m1 b1 m2 b2 h1 h2
+      simp only [Option.some.injEq, Prod.mk.injEq, Bool.and_eq_false_iff] at h
+      rcases h.1 with hm | hm
+      · subst hm; exact total_bit p t _ b1 ht.1 h1
+      · subst hm; exact totals_bit ps ts _ b2 ht.2 h2
+    · simp at h
+end
+
+/-- the compiled match bit of an irrefutable pattern is always set -/
+theorem irrefutable_bit {t : Ty} {p : Pat} {v : Val} {m : Bool} {bb : BEnv} (hi : irrefutable t p = true)
+    (hv : v.hasType t = true) (h : patG p t (v.encode t) = some (m, bb)) :
+    ∃ binds, matchPat p v = some binds ∧ EnvRel binds bb := by
+  have hs := patG_sound p t v m bb hv h
+  cases m with
+  | true => exact hs.1 rfl
+  | false =>
+    exfalso
+    have hnone := hs.2 rfl
+    simp only [irrefutable, Bool.or_eq_true] at hi
+    rcases hi with ht | hu
+    · -- a binding or a tuple of bindings always matches: the bit cannot be clear
+      exact absurd h (by
+        intro h'
+        exact total_bit p t (v.encode t) bb ht h')
+    · have hnone' : uncovered t [p] = none := by
+        cases hu' : uncovered t [p] with
+        | none => rfl
+        | some w => rw [hu'] at hu; simp at hu
+      obtain ⟨q, hq, hsome⟩ := uncovered_complete t [p] hnone' v hv
+      simp only [List.mem_singleton] at hq
+      subst hq
+      rw [hnone] at hsome
+      simp at hsome
 
 end Bit
 end GV
